@@ -462,6 +462,13 @@ def run_quad(pe, acc, case):
             pe.integrate.quad(lambda q, x: q[0] * x, [0.4], 0.0, 1.0, epsabs=1e-3, epsrel=1e-3, limit=7)
         except Exception:
             pass
+        # ... and so must a REFUSED request over the same limits (another integrand; its parameters cannot be combined: a Monte-Carlo
+        # chain and a covariance input of the same name, two different matrices under one name)
+        for badp in ([pe.Obs([np.linspace(0.9, 1.1, 12)], ['Q']), pe.cov_Obs(0.5, 0.01, 'Q')], [pe.cov_Obs(0.5, 0.01, 'cvsame'), pe.cov_Obs(0.7, 0.04, 'cvsame')]):
+            try:
+                pe.integrate.quad(lambda q, x: q[0] * x ** 3 + 7.0 * q[1] * x, badp, av, bv)
+            except Exception:
+                pass
         for k in range(0, len(slots) + 1):
             for obs_slots in itertools.combinations(slots, k):
                 for assign in (SLOT_ASSIGN if k > 0 else ['equal']):
